@@ -61,9 +61,14 @@ def run_child(fn, directory, fault=None, urandom_seed=0, wall_timeout=45):
     # copy-on-write faults serialise in the kernel), so compiler processes
     # are run under a machine-wide lock; the workers overlap everything
     # else.
-    with _child_lock():
+    lock = _child_lock()
+    lock.__enter__()
+
+    try:
         return _run_child(lib, fn, directory, fault, urandom_seed,
-                          wall_timeout)
+                          wall_timeout, lock)
+    finally:
+        lock.__exit__(None, None, None)
 
 
 class _child_lock(object):
@@ -77,12 +82,15 @@ class _child_lock(object):
         fcntl.flock(self.fd, fcntl.LOCK_EX)
 
     def __exit__(self, *exc):
-        os.close(self.fd)
+        if self.fd is not None:
+            os.close(self.fd)
+            self.fd = None
 
         return False
 
 
-def _run_child(lib, fn, directory, fault, urandom_seed, wall_timeout):
+def _run_child(lib, fn, directory, fault, urandom_seed, wall_timeout,
+               lock=None):
     read_fd, write_fd = os.pipe()
     sys.stdout.flush()
     sys.stderr.flush()
@@ -178,6 +186,14 @@ def _run_child(lib, fn, directory, fault, urandom_seed, wall_timeout):
             ready, _, _ = select.select([read_fd], [], [], min(left, 5))
 
             if not ready:
+                # A child that is not back after 10 s (hung, or a very slow
+                # machine) no longer keeps the other workers' children
+                # waiting.
+                if lock is not None and time.time() > deadline \
+                        - wall_timeout + 10:
+                    lock.__exit__(None, None, None)
+                    lock = None
+
                 continue
 
             chunk = os.read(read_fd, 1 << 16)
